@@ -1317,6 +1317,13 @@ def run():
                     c, why, o = disagree[0]
                     chk.broke('sanitizer build differs from the model on a %s configuration: %s' % (front, why),
                               {'kind': 'correspondence', 'front': front, 'variant': 'san', 'case': describe(c), 'observed': small(o)})
+            pcs = [gen_pretty_case(rng, 1000 + i) for i in range(100)]
+            with ThreadPoolExecutor(max_workers=min(8, vlib.NCPU)) as ex:
+                pres = list(ex.map(lambda c: judge_pretty(model, san, c, work), pcs))
+            for c, r in [(c, r) for c, r in zip(pcs, pres) if not r[0]][:1]:
+                chk.fail('sanitizer build: several PrettyFormatter objects in one process: child failed or an object\'s records are not a function of the messages delivered to it',
+                         {'kind': 'sanitizer', 'front': 'pretty_objects', 'pretty_case': describe_pretty(c), 'observed': show_recs(r[2]), 'model': show_recs(r[3])}, kind='sanitizer')
+            n_san += len(pcs)
             cov['sanitizer_children'] = n_san
     finally:
         shutil.rmtree(work, ignore_errors=True)
